@@ -143,6 +143,24 @@ func sectorLossKnob(k *Knobs, av avoidSet) {
 	}
 }
 
+// directedPlan turns a crash configuration into a choreographed one (see
+// directed.go): three nodes, no other faults, enough client commands to last
+// through every phase of the plan.
+func directedPlan(r *core.Rand, sc *Scenario) (nclients, total int) {
+	k := &sc.Knobs
+	k.Nodes = 3
+	k.DropPM, k.ReorderPM, k.UnreachPM = 0, 0, 0
+	k.OpTimeoutTicks = 25
+	k.MaxSteps = 3500
+	sc.Faults.Kinds = nil
+	sc.Faults.Directed = "ack-then-crash"
+	if r.Bool(0.25) {
+		sc.Faults.Directed = "vote-then-crash"
+	}
+	sc.Variant += "+" + sc.Faults.Directed
+	return 3 + r.Intn(2), 60
+}
+
 func pickNodes(r *core.Rand) int {
 	switch x := r.Intn(20); {
 	case x == 0:
@@ -405,6 +423,13 @@ func genC07(rng *core.Rand, env *core.Env, run int) *Scenario {
 	sectorLossKnob(k, av)
 	nclients := 2 + r.Intn(4)
 	total := pick(r, []int{12, 20, 30, 45, 60})
+	if ((variant == "crash" || variant == "all") && r.Bool(0.35)) || env.Params["directed"] != "" {
+		nclients, total = directedPlan(r, sc)
+		if d := env.Params["directed"]; d != "" {
+			sc.Variant = strings.Replace(sc.Variant, sc.Faults.Directed, d, 1)
+			sc.Faults.Directed = d
+		}
+	}
 	sc.Clients = genWorkload(r, av, nclients, total, true)
 	prescreen(sc)
 	return sc
@@ -442,6 +467,13 @@ func genC08(rng *core.Rand, env *core.Env, run int) *Scenario {
 	sectorLossKnob(k, av)
 	nclients := 1 + r.Intn(4)
 	total := pick(r, []int{12, 20, 30, 45, 60})
+	if ((variant == "crash" || variant == "crash-net") && r.Bool(0.4)) || env.Params["directed"] != "" {
+		nclients, total = directedPlan(r, sc)
+		if d := env.Params["directed"]; d != "" {
+			sc.Variant = strings.Replace(sc.Variant, sc.Faults.Directed, d, 1)
+			sc.Faults.Directed = d
+		}
+	}
 	sc.Clients = genWorkload(r, av, nclients, total, true)
 	prescreen(sc)
 	return sc
